@@ -634,7 +634,17 @@ def dicts(tree, path=()):
 # case construction
 # --------------------------------------------------------------------------------------------
 def random_bytes(rng, n):
-    mode = rng.randrange(4)
+    mode = rng.randrange(5)
+    if mode == 4:
+        # long exp-Golomb codes: "0 b 0 b ... 1" with all-one / all-zero / random data bits, i.e. values
+        # 2^k - 2, 2^k - 1 and random ones for k up to 4 * n (whichever bit the code starts on)
+        out = []
+        while len(out) < n:
+            run = rng.randrange(1, max(2, n))
+            out += [rng.choice([0x55, 0x55, 0xAA, 0x00, rng.randrange(256) & 0x55, rng.randrange(256) & 0xAA])] * 1 if rng.random() < 0.2 else \
+                   [rng.choice([0x55, 0xAA, 0x00])] * run
+            out.append(rng.randrange(256))
+        return out[:n]
     if mode == 0:
         return [rng.randrange(256) for _ in range(n)]
     if mode == 1:
@@ -718,7 +728,7 @@ def mutate(rng, tree, D):
 
 def make_case(I, rng, chaos=0.04):
     prog, feats = gen_program(rng, chaos)
-    data = random_bytes(rng, rng.choice([4, 12, 40]))
+    data = random_bytes(rng, rng.choice([4, 12, 40, 40]))
     o, des = run_des(I, prog, data)
     try:
         base = to_tree(I, des.context)
